@@ -1265,6 +1265,11 @@ func evalStringConcatenation(node *jparse.StringConcatenationNode, data reflect.
 // Helper functions
 
 func walkObjectValues(v reflect.Value, fn func(reflect.Value)) {
+	// Function values have no members.
+	if jtypes.IsCallable(v) {
+		return
+	}
+
 	switch v := jtypes.Resolve(v); {
 	case jtypes.IsArray(v):
 		for i, N := 0, v.Len(); i < N; i++ {
